@@ -30,6 +30,27 @@ def abstract(font, keep_names, svg_names_required=False):
          "numPaletteEntries": 0, "svgDocs": [], "cblcStrikes": [], "cmapGids": [], "hmtxLen": len(font["hmtx"].metrics),
          "maxpNumGlyphs": font["maxp"].numGlyphs, "outlineGlyphs": n, "postFormat3": font["post"].formatType == 3.0,
          "isTrueType": "glyf" in font, "keepNames": bool(keep_names), "svgNamesRequired": bool(svg_names_required)}
+    # every Coverage table of the layout tables, as glyph ids in stored order (the font is read back from its binary form by the caller)
+    covs = []
+    from fontTools.ttLib.tables import otTables as _ot
+    for tag in ("GSUB", "GPOS", "GDEF"):
+        if tag in font and getattr(font[tag], "table", None) is not None:
+            seen, stack = set(), [font[tag].table]
+            while stack:
+                o = stack.pop()
+                if id(o) in seen or o is None:
+                    continue
+                seen.add(id(o))
+                if isinstance(o, _ot.Coverage):
+                    covs.append([str(gid(g)) for g in o.glyphs])
+                    continue
+                if isinstance(o, (list, tuple)):
+                    stack.extend(o)
+                elif isinstance(o, dict):
+                    stack.extend(o.values())
+                elif hasattr(o, "__dict__") and type(o).__module__.startswith("fontTools"):
+                    stack.extend(v for k, v in vars(o).items() if not k.startswith("_") and not isinstance(v, (str, int, float)))
+    a["coverages"] = covs
     if "glyf" in font:
         a["outlineGlyphs"] = len(font["glyf"].glyphs)
     elif "CFF " in font:
